@@ -15,6 +15,7 @@
 #include "ops_c07.c"
 #include "ops_c18.c"
 #include "ops_c03.c"
+#include "ops_c09.c"
 
 static void on_alarm(int sig)
 {
@@ -46,6 +47,7 @@ int main(void)
     if (!done) done = dispatch_c07(&t);
     if (!done) done = dispatch_c18(&t);
     if (!done) done = dispatch_c03(&t);
+    if (!done) done = dispatch_c09(&t);
     if (!done) printf("R skip\n");
     printf("E\n");      /* end of this op: everything before a crash belongs to the op in flight */
     fflush(stdout);
